@@ -165,7 +165,8 @@ def monitor(tr, case):
         eaten = np.asarray(obj.feed_used.kcals, float)
         if lp.kind == "to_humans":
             short = eaten - charged
-            if short.max() > 1e-9 * max(1.0, eaten.max()) + 1e-9:
+            # (the charge is the herds' own feed series, raised where round 3 adds to it: never smaller, not even by rounding)
+            if short.max() > 1e-12 * max(1.0, eaten.max()):
                 m = int(short.argmax())
                 bad("feed_charged_less_than_herds_ate", "round %d month %d: charged %.10g but the herds behind this round's meat ate %.10g" % (li + 1, m, charged[m], eaten[m]), round=li + 1, month=m)
             if not charged.any():
